@@ -68,6 +68,19 @@ pub fn judge(input: &[u8], rec: &mut Recorder, hash: u64, copy_owned: bool) {
     let (total, fam) = match wire {
         Some(w) => w,
         None => {
+            // not a complete header on the wire; if the implementation accepts it all the same, the
+            // length identities cannot hold (the bytes are not there)
+            if input.len() >= 16 && input[..12] == spec::v2::SIG {
+                let field = u16::from_be_bytes([input[14], input[15]]) as usize;
+                if let Ok(Some((l, n, b))) = guard(|| v2::Header::try_from(input).ok().map(|h| (h.length(), h.len(), h.as_bytes().len()))) {
+                    rec.case(hash, true);
+                    rec.event();
+                    if l != field || n != 16 + field || b != n {
+                        rec.violation("lengths:borrowed", enc_case("v2", &input[..input.len().min(300)]), "incomplete-on-the-wire".into(), format!("lengths on {:?} ({} bytes supplied): length()={} len()={} as_bytes().len()={} length field={}", show(&input[..input.len().min(32)], 32), input.len(), l, n, b, field));
+                    }
+                    return;
+                }
+            }
             rec.case(hash, false);
             return;
         }
@@ -103,12 +116,22 @@ pub fn judge(input: &[u8], rec: &mut Recorder, hash: u64, copy_owned: bool) {
                 if o != h {
                     bad.push(("owned-differs:owned".into(), "to_owned() != original".into()));
                 }
+                // Clone::clone_from into an existing header of another family: the target must
+                // become this header in every view
+                let mut slot = crate::c03::OTHER_V2.with(|x| x.clone());
+                slot.clone_from(&h);
+                bad.extend(check(&slot, input, total, fam, "clone_from(borrowed)"));
+                let mut slot = crate::c03::OTHER_V2.with(|x| x.clone());
+                slot.clone_from(&o);
+                bad.extend(check(&slot, input, total, fam, "clone_from(owned)"));
+                let c = h.clone();
+                bad.extend(check(&c, input, total, fam, "clone"));
             }
             Some(bad)
         }
         Err(_) => None,
     });
-    rec.events(if copy_owned { 40 } else { 20 });
+    rec.events(if copy_owned { 100 } else { 20 });
     let report = |rec: &mut Recorder, rule: &str, d: String| {
         rec.violation(rule, enc_case("v2", &input[..(total + 4).min(input.len())]), format!("fam{}|{}", fam, if total - 16 == fam_size(fam).unwrap_or(0) { "min" } else { "more" }), format!("{} on {:?} ({} header bytes): {}", rule, show(&input[..input.len().min(32)], 32), total, d));
     };
